@@ -5,9 +5,13 @@ package c16
 import (
 	"fmt"
 	"math/rand"
+	"runtime"
 	"sort"
 	"strconv"
 	"strings"
+	"sync"
+	"sync/atomic"
+	"time"
 
 	"github.com/moorara/algo/set"
 
@@ -184,9 +188,58 @@ var bell = []int{1, 1, 2, 5, 15, 52, 203, 877, 4140}
 
 // ---------------------------------------------------------------- Exec
 
-// Exec runs one case on the real set package.
+// caseLimit is the watchdog for one case (a case normally takes well under 100 ms).
+const caseLimit = 10 * time.Second
+
+// hung is set once a case did not return: Main then stops generating (the leaked goroutine keeps a CPU
+// busy and may still draw from the package-level shuffle, so later comparisons would be noise).
+var hung atomic.Bool
+
+type published struct {
+	mu        sync.Mutex
+	res       hx.Result
+	abandoned atomic.Bool
+}
+
+// Exec runs one case on the real set package under a watchdog.
 func Exec(c hx.Case) hx.Result {
+	pub := &published{res: hx.Result{BadOp: -1}}
+	done := make(chan struct{})
+	go func() {
+		defer close(done)
+		execCase(c, pub)
+	}()
+	select {
+	case <-done:
+		return pub.res
+	case <-time.After(caseLimit):
+	}
+	pub.abandoned.Store(true)
+	hung.Store(true)
+	pub.mu.Lock()
+	res := pub.res
+	res.Outs = append(append([]string{}, res.Outs...), "hang")
+	pub.mu.Unlock()
+	if res.BadOp < 0 {
+		res.BadOp = len(res.Outs) - 1
+		op := "?"
+		if res.BadOp < len(c.Ops) {
+			op = c.Ops[res.BadOp]
+		}
+		res.What = fmt.Sprintf("%s did not return within %v", op, caseLimit)
+	}
+	res.Tags = append(res.Tags, "hang")
+	return res
+}
+
+func execCase(c hx.Case, pub *published) {
 	res := hx.Result{BadOp: -1}
+	publish := func() {
+		pub.mu.Lock()
+		pub.res = res
+		pub.mu.Unlock()
+	}
+	defer publish()
 	bad := func(i int, format string, a ...any) {
 		if res.BadOp < 0 {
 			res.BadOp = i
@@ -198,15 +251,20 @@ func Exec(c hx.Case) hx.Result {
 		for range c.Ops {
 			res.Outs = append(res.Outs, "bad-case")
 		}
-		return res
+		return
 	}
 	kinds := hx.HeaderGet(c.Header, "regs")
 	shSeed, _ := strconv.ParseUint(hx.HeaderGet(c.Header, "sh"), 10, 32)
 	script := &scripted{x: uint32(shSeed)}
 	checkSrc := rand.NewSource(int64(shSeed) + 977)
-	opMode := func() { set.VerifSetShuffleSource(script) }
-	checkMode := func() { set.VerifSetShuffleSource(checkSrc) }
-	defer set.VerifSetShuffleSeed(1)
+	// a case the watchdog gave up on must not touch the package-level shuffle any more
+	stopIfAbandoned := func() {
+		if pub.abandoned.Load() {
+			runtime.Goexit()
+		}
+	}
+	opMode := func() { stopIfAbandoned(); set.VerifSetShuffleSource(script) }
+	checkMode := func() { stopIfAbandoned(); set.VerifSetShuffleSource(checkSrc) }
 
 	regs := make([]set.Set[int], len(kinds))
 	orc := make([]*oreg, len(kinds))
@@ -216,7 +274,7 @@ func Exec(c hx.Case) hx.Result {
 			for range c.Ops {
 				res.Outs = append(res.Outs, "bad-case")
 			}
-			return res
+			return
 		}
 		orc[i] = newOreg(kinds[i])
 	}
@@ -250,6 +308,8 @@ func Exec(c hx.Case) hx.Result {
 	nontrivial := false
 
 	for i, op := range c.Ops {
+		stopIfAbandoned()
+		publish()
 		f := strings.Fields(op)
 		out := "bad-op"
 		snap := make([]string, len(regs))
@@ -761,7 +821,6 @@ func Exec(c hx.Case) hx.Result {
 		res.Tags = append(res.Tags, t)
 	}
 	sort.Strings(res.Tags)
-	return res
 }
 
 // ---------------------------------------------------------------- generators
@@ -1010,10 +1069,15 @@ func exhaustive(alpha []string, n int, f func([]string)) {
 
 func Main(run *hx.Run) {
 	run.Stats.Rule = Rule
+	do := func(c hx.Case) {
+		if !hung.Load() {
+			run.Do("reg", c, Exec)
+		}
+	}
 	for _, f := range hx.CorpusFiles("C16") {
 		cs, _ := hx.ReadReplay(f)
 		for _, c := range cs {
-			run.Do("reg", c, Exec)
+			do(c)
 		}
 	}
 	// Powerset n<=7 and Partitions n<=6 for every implementation (quick: the large n once per kind)
@@ -1025,9 +1089,9 @@ func Main(run *hx.Run) {
 				reps = 4
 			}
 			for k := 0; k < reps; k++ {
-				run.Do("reg", enumCase(re, kind, n, "powerset"), Exec)
+				do(enumCase(re, kind, n, "powerset"))
 				if n <= 6 {
-					run.Do("reg", enumCase(re, kind, n, "partitions"), Exec)
+					do(enumCase(re, kind, n, "partitions"))
 				}
 			}
 		}
@@ -1042,7 +1106,7 @@ func Main(run *hx.Run) {
 			length = 300
 			univ = 40
 		}
-		run.Do("reg", randomCase(rr, rr.Range(2, 5), univ, length, 5, 4), Exec)
+		do(randomCase(rr, rr.Range(2, 5), univ, length, 5, 4))
 	}
 	if run.Thorough() {
 		rx := run.R.Fork("exhaustive")
@@ -1060,7 +1124,7 @@ func Main(run *hx.Run) {
 				alpha = append(alpha, "removeall 0")
 				for l := 1; l <= maxLen; l++ {
 					exhaustive(alpha, l, func(ops []string) {
-						run.Do("reg", hx.Case{Header: fmt.Sprintf("comp=reg sh=%d regs=%c", uint32(rx.U64()), kind), Ops: append(ops, tail...)}, Exec)
+						do(hx.Case{Header: fmt.Sprintf("comp=reg sh=%d regs=%c", uint32(rx.U64()), kind), Ops: append(ops, tail...)})
 					})
 				}
 			}
@@ -1073,7 +1137,7 @@ func Main(run *hx.Run) {
 						ops := []string{"add 0" + join(shuffled(rx, subsetOf(a, 4))), "add 1" + join(shuffled(rx, subsetOf(b, 4))),
 							"equal 0 1", "subset 0 1", "superset 0 1", "union 2 0 1", "inter 2 0 1", "diff 2 0 1",
 							"union 2 0 1 0", "inter 2 0 0 1", "diff 2 0 0", "union 2 0", "inter 2 0", "diff 2 0", "string 0", "string 1"}
-						run.Do("reg", hx.Case{Header: fmt.Sprintf("comp=reg sh=%d regs=%c%c%c", uint32(rx.U64()), ka, kb, ka), Ops: ops}, Exec)
+						do(hx.Case{Header: fmt.Sprintf("comp=reg sh=%d regs=%c%c%c", uint32(rx.U64()), ka, kb, ka), Ops: ops})
 					}
 				}
 			}
@@ -1086,7 +1150,7 @@ func Main(run *hx.Run) {
 						ops := []string{"add 0" + join(shuffled(rx, subsetOf(m&7, 3))), "add 1" + join(shuffled(rx, subsetOf((m>>3)&7, 3))),
 							"add 2" + join(shuffled(rx, subsetOf((m>>6)&7, 3))),
 							"union 3 0 1 2", "inter 3 0 1 2", "diff 3 0 1 2", "string 0", "string 1", "string 2"}
-						run.Do("reg", hx.Case{Header: fmt.Sprintf("comp=reg sh=%d regs=%c%c%c%c", uint32(rx.U64()), ka, kb, kc, ka), Ops: ops}, Exec)
+						do(hx.Case{Header: fmt.Sprintf("comp=reg sh=%d regs=%c%c%c%c", uint32(rx.U64()), ka, kb, kc, ka), Ops: ops})
 					}
 				}
 			}
